@@ -266,6 +266,9 @@ func (p *prop) ensureE2E() bool {
 	if _, err := p.s.API.CreateField(ctx, index, "f", pilosa.OptFieldTypeSet("ranked", 100)); err != nil {
 		return false
 	}
+	if _, err := p.s.Query(index, "Set(0, f=7) Set(1, f=7) Set(99, f=7) Set(100, f=7) Set(101, f=7) Set(250, f=7)", nil); err != nil {
+		return false
+	}
 	h := p.s.Server.Holder()
 	p.index = index
 	p.st[2] = h.Field(index, "f").RowAttrStore()
@@ -631,6 +634,67 @@ func (p *prop) execLine(l string) string {
 		_, verdict := p.pql(strings.Join(calls, " "))
 		vh.Count("e2e-ebulk")
 		return verdict
+	case ws[0] == "equery" && len(ws) == 2:
+		// 2-5 SetRowAttrs / SetColumnAttrs calls in ONE query, in the given order; rows and columns
+		// may repeat. A query of SetRowAttrs calls only goes through executeBulkSetRowAttrs.
+		if !p.ensureE2E() {
+			return "bad-op"
+		}
+		parts := strings.Split(ws[1], "|")
+		if len(parts) < 1 || len(parts) > 8 {
+			return "bad-op"
+		}
+		var calls []string
+		allRows := true
+		for _, part := range parts {
+			ia := strings.Split(part, ":")
+			if len(ia) != 2 || len(ia[0]) < 2 || (ia[0][0] != 'r' && ia[0][0] != 'c') {
+				return "bad-op"
+			}
+			id, err := strconv.ParseUint(ia[0][1:], 10, 62)
+			args, ok := e2eAttrs(ia[1])
+			if err != nil || !ok {
+				return "bad-op"
+			}
+			if ia[0][0] == 'r' {
+				calls = append(calls, fmt.Sprintf("SetRowAttrs(f, %d%s)", id, args))
+			} else {
+				allRows = false
+				calls = append(calls, fmt.Sprintf("SetColumnAttrs(%d%s)", id, args))
+			}
+		}
+		_, verdict := p.pql(strings.Join(calls, " "))
+		if allRows {
+			vh.Count("e2e-equery-bulk-path")
+		} else {
+			vh.Count("e2e-equery-mixed")
+		}
+		return verdict
+	case ws[0] == "ecolget" && len(ws) == 1:
+		// Row(f=7) with columnAttrs=true: the row's attributes and the attribute sets of its columns
+		// 0,1,99,100,101,250 (those without attributes are left out by the executor).
+		if !p.ensureE2E() {
+			return "bad-op"
+		}
+		resp, err := p.s.API.Query(context.Background(), &pilosa.QueryRequest{Index: p.index, Query: "Row(f=7)", ColumnAttrs: true})
+		if err != nil || resp.Err != nil || len(resp.Results) != 1 {
+			return "err:other"
+		}
+		row, ok := resp.Results[0].(*pilosa.Row)
+		if !ok {
+			return "err:other"
+		}
+		p.handles = append(p.handles, row.Attrs)
+		var ss []string
+		for _, set := range resp.ColumnAttrSets {
+			p.handles = append(p.handles, set.Attrs)
+			ss = append(ss, fmt.Sprintf("%d{%s}", set.ID, showAttrs(set.Attrs)))
+		}
+		vh.Count("e2e-ecolget")
+		if len(ss) == 0 {
+			return showAttrs(row.Attrs) + " -"
+		}
+		return showAttrs(row.Attrs) + " " + strings.Join(ss, " ")
 	case ws[0] == "erowget" && len(ws) == 2:
 		id, err := strconv.ParseUint(ws[1], 10, 62)
 		if err != nil || !p.ensureE2E() {
@@ -755,7 +819,11 @@ func (p *prop) Gen(r *vh.Rng, tier string, n int) []vh.Case {
 		if cr.Chance(1, 12) {
 			cases = append(cases, genRawDiff(cr))
 		} else if cr.Chance(1, 6) {
-			cases = append(cases, genE2E(cr))
+			if cr.Chance(1, 2) {
+				cases = append(cases, genEQuery(cr))
+			} else {
+				cases = append(cases, genE2E(cr))
+			}
 		} else {
 			cases = append(cases, genHistory(cr, tier))
 		}
@@ -791,6 +859,40 @@ func genE2EAttrs(r *vh.Rng, keys []string) string {
 	return strings.Join(parts, ";")
 }
 
+// genEQuery: one query of 2-5 SetRowAttrs / SetColumnAttrs calls that keep hitting the same one or
+// two rows / columns with overlapping keys, type changes and nulls in every order (two queries out
+// of three consist of SetRowAttrs only = the bulk path of the executor), then the reads.
+func genEQuery(r *vh.Rng) vh.Case {
+	keys := []string{"k61", "k62"}[:r.Range(1, 2)]
+	ids := []int{r.Pick(0, 1, 99), r.Pick(100, 101, 250)}
+	var lines []string
+	if r.Chance(1, 2) {
+		lines = append(lines, fmt.Sprintf("erow %d %s", ids[0], genE2EAttrs(r, keys)))
+	}
+	for q := 0; q < r.Range(1, 3); q++ {
+		rowsOnly := r.Chance(2, 3)
+		var calls []string
+		for c := 0; c < r.Range(2, 5); c++ {
+			kind := "r"
+			if !rowsOnly && r.Chance(1, 2) {
+				kind = "c"
+			}
+			id := ids[0]
+			if r.Chance(1, 4) {
+				id = ids[1]
+			}
+			calls = append(calls, fmt.Sprintf("%s%d:%s", kind, id, genE2EAttrs(r, keys)))
+		}
+		lines = append(lines, "equery "+strings.Join(calls, "|"))
+		lines = append(lines, fmt.Sprintf("erowget %d", ids[0]), fmt.Sprintf("erowget %d", ids[1]), "ecolget")
+		if r.Chance(1, 3) {
+			lines = append(lines, fmt.Sprintf("get 2 %d", ids[0]), fmt.Sprintf("bdata 2 %d", ids[0]/100))
+		}
+	}
+	lines = append(lines, "ediff 2 3", "ediff 3 2")
+	return vh.Case{Lines: lines, Nontrivial: true}
+}
+
 // genE2E: attribute calls through PQL and the executor (SetRowAttrs on and off the bulk path,
 // SetColumnAttrs, Row() attributes, the attribute-diff API), mixed with direct store access.
 func genE2E(r *vh.Rng) vh.Case {
@@ -815,8 +917,11 @@ func genE2E(r *vh.Rng) vh.Case {
 				b = strings.Join(parts, "|")
 			}
 			lines = append(lines, "ebulk "+b)
-		case x < 42:
+		case x < 36:
 			lines = append(lines, fmt.Sprintf("ecol %d %s", pick(), genE2EAttrs(r, keys)))
+		case x < 42:
+			lines = append(lines, "ecolget")
+			gets += 1 // at least the row's map; column sets follow
 		case x < 58:
 			lines = append(lines, fmt.Sprintf("erowget %d", pick()))
 			gets++
